@@ -87,7 +87,7 @@ def gen(rnd):
         secs.append(('watcher', w, items))
     if rnd.random() < .7:
         # values of the [env] section may themselves refer to variables of the daemon's own environment
-        secs.append(('env', '', [(v, 'g-' + v if rnd.random() < .75 else
+        secs.append(('env', '', [(v, ('g-' + v if rnd.random() < .9 else '') if rnd.random() < .75 else
                                   'g-' + v + rnd.choice([':$(circus.env.home)', '-((circus.env.HOME))', ':$(CIRCUS.ENV.Path)']))
                                  for v in rnd.sample(ENVVARS, rnd.randint(1, 4))]))
     used = set()
